@@ -1,13 +1,16 @@
 #!/bin/sh
-# evaluate every mutant found under /tmp/mut/<P>/ (patch.diff / patch2.diff) that is not yet in /verif/seeded
+# tools/eval_batch.sh [base-dir] [id-tag]: evaluate every seeded change found under <base>/<P>/
+# (patch.diff / patch2.diff / patch3.diff) that is not yet recorded in /verif/seeded
+BASE=${1:-/tmp/mut}
+TAG=${2:-m}
 cd /verif
-for d in /tmp/mut/C*/; do
+for d in $BASE/C*/; do
   P=$(basename $d)
-  if [ -f $d/patch.diff ] && [ ! -f /verif/seeded/$P-m1/meta.json ]; then
-    python3 tools/eval_mutant.py $d $d/patch.diff $d/tests/demo_$P.rs $d/meta.json $P-m1 "$@"
-  fi
-  if [ -f $d/patch2.diff ] && [ ! -f /verif/seeded/$P-m2/meta.json ]; then
-    python3 tools/eval_mutant.py $d $d/patch2.diff $d/tests/demo_${P}_2.rs $d/meta2.json $P-m2 "$@"
-  fi
+  for n in 1 2 3; do
+    if [ $n = 1 ]; then pf=patch.diff; mf=meta.json; df=tests/demo_$P.rs; else pf=patch$n.diff; mf=meta$n.json; df=tests/demo_${P}_$n.rs; fi
+    if [ -f $d/$pf ] && [ -f $d/$df ] && [ ! -f /verif/seeded/$P-$TAG$n/meta.json ]; then
+      python3 tools/eval_mutant.py $d $d/$pf $d/$df $d/$mf $P-$TAG$n
+    fi
+  done
 done
 echo BATCH-DONE
